@@ -182,7 +182,6 @@ pub fn campaigns(rep: &mut Report) {
             rep.inconclusive.push(format!("{section}: skipped, time budget exhausted"));
             continue;
         }
-        let t0 = Instant::now();
         let work = tempfile::tempdir().expect("tempdir");
         let corpus = work.path().join("corpus");
         let artifacts = work.path().join("artifacts");
@@ -191,14 +190,42 @@ pub fn campaigns(rep: &mut Report) {
         for (i, s) in seeds(target).into_iter().enumerate() {
             std::fs::write(corpus.join(format!("seed{i:02}")), s).ok();
         }
-        let out = Command::new("cargo")
+        // build (no-op when up to date), then run the binary directly
+        let build = Command::new("cargo")
             .current_dir(&fuzz_dir)
             .env("CARGO_NET_OFFLINE", "true")
-            .env("VERIF_ROOT", &rep.cfg.root)
-            .args(["+nightly", "fuzz", "run", "--release", "--fuzz-dir", "."])
+            .args(["+nightly", "fuzz", "build", "--release", "--fuzz-dir", ".", "--features", "parsers"])
             .arg(target)
+            .output();
+        match build {
+            Ok(o) if o.status.success() => {}
+            Ok(o) => {
+                let err = String::from_utf8_lossy(&o.stderr).into_owned();
+                let tail: Vec<&str> = err.lines().filter(|l| l.contains("error")).take(6).collect();
+                rep.inconclusive.push(format!("{section}: cargo fuzz build failed (not a violation): {}", tail.join(" | ")));
+                continue;
+            }
+            Err(e) => {
+                rep.inconclusive.push(format!("{section}: cannot start cargo fuzz: {e}"));
+                continue;
+            }
+        }
+        let bin = std::fs::read_dir(fuzz_dir.join("target"))
+            .ok()
+            .into_iter()
+            .flatten()
+            .filter_map(|e| e.ok())
+            .map(|e| e.path().join("release").join(target))
+            .find(|p| p.is_file());
+        let Some(bin) = bin else {
+            rep.inconclusive.push(format!("{section}: built fuzz binary not found under {}/target", fuzz_dir.display()));
+            continue;
+        };
+        let t0 = Instant::now();
+        let out = Command::new(&bin)
+            .current_dir(work.path())
+            .env("VERIF_ROOT", &rep.cfg.root)
             .arg(&corpus)
-            .arg("--")
             .arg(format!("-runs={runs}"))
             .arg(format!("-seed={seed}"))
             .arg(format!("-max_total_time={cap_s}"))
@@ -208,7 +235,7 @@ pub fn campaigns(rep: &mut Report) {
         let out = match out {
             Ok(o) => o,
             Err(e) => {
-                rep.inconclusive.push(format!("{section}: cannot start cargo fuzz: {e}"));
+                rep.inconclusive.push(format!("{section}: cannot start {}: {e}", bin.display()));
                 continue;
             }
         };
@@ -238,7 +265,7 @@ pub fn campaigns(rep: &mut Report) {
             // build error, missing toolchain, ...: never a violation
             let tail: Vec<&str> = log.lines().rev().take(12).collect();
             rep.inconclusive.push(format!(
-                "{section}: cargo fuzz exited with {:?} without an artifact: {}",
+                "{section}: fuzz binary exited with {:?} without an artifact: {}",
                 out.status.code(),
                 tail.into_iter().rev().collect::<Vec<_>>().join(" | ")
             ));
